@@ -224,6 +224,40 @@ fn run(j: &Value) -> Result<(), String> {
                 }
                 inv.push(json!({"kind": "impl", "self_ty": self_ty, "trait": trait_name, "raw": raw, "items": members}));
             }
+            syn::Item::Fn(f) => {
+                let fname = f.sig.ident.to_string();
+                let mut argnames: Vec<String> = Vec::new();
+                let mut params: Vec<Value> = Vec::new();
+                for inp in &f.sig.inputs {
+                    if let syn::FnArg::Typed(pt) = inp {
+                        let n = norm(&pt.pat.to_token_stream());
+                        argnames.push(n.clone());
+                        params.push(json!({"name": n, "ty": norm(&pt.ty.to_token_stream())}));
+                    }
+                }
+                let mut contracted = false;
+                for (ci, c) in contracts.iter().enumerate() {
+                    if c["impl"].as_str() == Some("") && c["fn"].as_str() == Some(fname.as_str()) {
+                        used[ci] = true;
+                        contracted = true;
+                        for a in c["attrs"].as_array().ok_or("attrs")? {
+                            let mut s = a.as_str().ok_or("attr str")?.to_string();
+                            for (k, n) in argnames.iter().enumerate().rev() {
+                                s = s.replace(&format!("$ARG{}", k), n);
+                            }
+                            let meta: TokenStream = s.parse().map_err(|e| format!("attr lex {s}: {e}"))?;
+                            let attr: syn::Attribute = syn::parse_quote!(#[cfg_attr(kani, #meta)]);
+                            f.attrs.push(attr);
+                        }
+                    }
+                }
+                let ret = match &f.sig.output {
+                    syn::ReturnType::Default => "()".to_string(),
+                    syn::ReturnType::Type(_, t) => norm(&t.to_token_stream()),
+                };
+                inv.push(json!({"kind": "fn", "name": fname, "vis": vis_str(&f.vis), "const": f.sig.constness.is_some(), "params": params,
+                                "ret": ret, "contracted": contracted}));
+            }
             syn::Item::Struct(_) | syn::Item::Enum(_) => {}
             other => {
                 inv.push(json!({"kind": "other", "text": norm(&other.to_token_stream())}));
